@@ -99,28 +99,53 @@ def run_harnesses(repo, hs, jobs=8):
             out += "\nOVERALL TIMEOUT\n"
         secs = time.time() - t0
         open(os.path.join(VERIF, ".cache", "kani-last.log"), "w").write(out) if os.path.isdir(os.path.join(VERIF, ".cache")) else None
-        # parse terse output: "Checking harness X..." blocks and the final summary
+        # parse output: with -j each thread prints "Thread N: Checking harness X..." and later
+        # a block "Thread N: \nVERIFICATION RESULT ... VERIFICATION:- ..."; a thread handles
+        # several harnesses one after the other, in the order of its "Checking" lines
+        thread_q = {}
+        for m in re.finditer(r"^(?:Thread (\d+): )?Checking harness (\S+?)\.\.\.", out, re.M):
+            thread_q.setdefault(m.group(1) or "0", []).append(m.group(2))
+        blocks = {}
+        parts = re.split(r"^(?=Thread \d+: *$)", out, flags=re.M)
+        seen_idx = {}
+        for part in parts:
+            m = re.match(r"Thread (\d+): *\n", part)
+            if not m or "VERIFICATION:-" not in part:
+                continue
+            t = m.group(1)
+            k = seen_idx.get(t, 0)
+            seen_idx[t] = k + 1
+            if t in thread_q and k < len(thread_q[t]):
+                blocks[thread_q[t][k]] = part
+        if not blocks and len(hs) == 1:
+            blocks["%s::verif_kani_%s::%s" % (mod_path(hs[0]["target"]), hs[0]["file"][:-3], hs[0]["name"])] = out
         for h in hs:
             full = "%s::verif_kani_%s::%s" % (mod_path(h["target"]), h["file"][:-3], h["name"])
             st = "undecided"
             detail = ""
-            # per-harness result lines
-            m = re.search(r"Checking harness %s\.\.\.(.*?)(?=Checking harness |Manual Harness Summary|Complete - |\Z)" % re.escape(full), out, re.S)
-            blk = m.group(1) if m else ""
+            blk = blocks.get(full, "")
+            mt = re.search(r"Verification Time: ([0-9.]+)s", blk)
+            hsecs = float(mt.group(1)) if mt else secs
             if "VERIFICATION:- SUCCESSFUL" in blk:
                 st = "ok"
-            elif "VERIFICATION:- FAILED" in blk:
-                # distinguish real assertion failures from unwinding / timeout problems
-                if re.search(r"timed out|TIMEOUT|out of memory|unwinding assertion", blk, re.I) and not re.search(r"Failed Checks: (?!.*unwinding)", blk):
+                if re.search(r"\*\* 0 of \d+ cover properties satisfied", blk):
                     st = "undecided"
+                    detail = "cover property unreachable (vacuous harness)"
+            elif "VERIFICATION:- FAILED" in blk:
+                if re.search(r"timed out|out of memory|CBMC failed", blk, re.I) and "Failed Checks:" not in blk:
+                    st = "undecided"
+                    detail = "CBMC timeout / resource failure"
+                elif re.search(r"Failed Checks: .*unwinding assertion", blk) and not re.search(r"Failed Checks: (?!.*unwinding assertion)", blk):
+                    st = "undecided"
+                    detail = "unwinding bound too small"
                 else:
                     st = "fail"
-                detail = "\n".join(l for l in blk.split("\n") if "Failed Checks" in l or "FAILED" in l)[:2000]
+                    detail = "\n".join(l for l in blk.split("\n") if "Failed Checks" in l or "File:" in l)[:3000]
             elif not blk:
                 detail = "no result for harness (build error or name mismatch)\n" + out[-1500:]
             else:
                 detail = blk[-1500:]
-            res[h["name"]] = {"status": st, "secs": round(secs, 1), "detail": detail}
+            res[h["name"]] = {"status": st, "secs": round(hsecs, 1), "detail": detail}
     finally:
         shutil.rmtree(work, ignore_errors=True)
     return res, cmds
